@@ -207,8 +207,9 @@ def make_harness(cycles, nwrites, nrecv, maxdelay):
 def shapes(tier):
     if tier == "quick":
         return [(6, 1, 1, 1), (7, 2, 0, 1), (7, 0, 2, 1)]
-    return [(8, 1, 1, 2), (9, 2, 1, 1), (9, 1, 2, 1), (8, 2, 2, 1),
-            (7, 3, 0, 1), (10, 0, 3, 2)]
+    # (three application writes exhaust the path budget even at 7 cycles)
+    return [(6, 1, 1, 1), (7, 2, 0, 1), (8, 1, 1, 2), (9, 2, 1, 1),
+            (9, 1, 2, 1), (8, 2, 2, 1), (10, 0, 3, 2)]
 
 
 def worker(args):
@@ -235,7 +236,7 @@ def main(tier, replay_file=None):
         "C28", tier, "model_checking", FUNCTIONS,
         bounds=dict(history="6..7 (thorough 7..10) cycles including "
                             "initialisation",
-                    application="1..2 (3) writes of 1..30 bytes (symbolic "
+                    application="1..2 writes of 1..30 bytes (symbolic "
                                 "length and content) at engine-chosen cycles",
                     terminal="0..2 (3) chunks of 0..22 bytes (symbolic), accept "
                              "delays 0..1 (2) cycles per chunk and direction, "
